@@ -923,6 +923,11 @@ class Exec:
             raise Unsupported("symbolic index into concrete tuple")
         if isinstance(v, Obj) and v.cls == "dict":
             return self.map_get(v, i, line)
+        if isinstance(v, Z) and v.t.sort() == S.Py and self.entails(self.P.is_PDict(v.t)):
+            # d[k] on a dict value: KeyError unless the key is present
+            k = self.to_py(i)
+            self.oblige("safety", "KeyError:key-present", S.contains(self.P.dkeys(v.t), k), line)
+            return Z(S.assoc(self.P.dkeys(v.t), self.P.dvals(v.t), k), origin="dict lookup")
         if isinstance(v, Z) and v.t.sort() == S.Py:
             if v.fresh != "deep":
                 pass
